@@ -501,6 +501,8 @@ def oracle_cfg(case, obs):
     d = _one(v, what, _co_paths(case, obs.get("vtree")), case.get("api", "path"))
     if d:
         return d
+    if var["op"] == "xdup" and not _redundant(case, var, b):
+        return None  # the copied import was not part of the configuration (its file is not loaded): the edit adds a module
     if b["outcome"] != v["outcome"]:
         return f"the configuration {'loads' if b['outcome'] == 'ok' else 'fails (' + b.get('cls', '?') + ')'} as written but {'loads' if v['outcome'] == 'ok' else 'fails (' + v.get('cls', '?') + ': ' + v.get('msg', '')[:80] + ')'} {what}"
     if b["outcome"] != "ok":
@@ -515,6 +517,20 @@ def oracle_cfg(case, obs):
         if sorted(map(tuple, fb)) != sorted(map(tuple, fv)) or b["msgs"] != v["msgs"]:
             return f"{what} the configuration loads to a different set of flows: " + _flow_diff(sorted(map(list, map(tuple, fb))), sorted(map(list, map(tuple, fv))))
     return None
+
+
+def _redundant(case, var, b):
+    """xdup: the copied import line names a path the configuration as written already imports"""
+    if b.get("outcome") != "ok":
+        return False
+    try:
+        text = case[var["where"]][var["file"]][1]
+        il = import_lines(text)
+        line = text.split("\n")[il[var["k"] % len(il)]].rstrip("\r")
+    except (IndexError, KeyError, ZeroDivisionError):
+        return False
+    m = re.match(r"^import[ \t]+([A-Za-z_][\w.]*)[ \t]*(#.*)?$", line)
+    return bool(m) and m.group(1).replace(".", "/") in (b.get("import_paths") or [])
 
 
 def _exact(case, var):
